@@ -537,7 +537,12 @@ func (v Value) opBitLsh(b Value) Value {
 	case TypeUint8:
 		return Value{t: t, num: float64(byte(v.num) << n)}
 	default:
-		return Value{t: untypedInt, num: float64(int(v.num) << n)}
+		// an untyped constant shifted by a variable: the constant would be an int here or take the (at most 32-bit)
+		// type of its context; the low 32 bits are the same in every case
+		if b.t&typedNumberMask == 0 {
+			return Value{t: untypedInt, num: float64(int(v.num) << n)} // a constant shift of a constant
+		}
+		return Value{t: untypedInt, num: float64(int32(int64(v.num) << n))}
 	}
 }
 func (v Value) opBitRsh(b Value) Value {
